@@ -675,9 +675,12 @@ func mergeScrapeStatus(a, b map[uint64]*target.ScrapeStatus) map[uint64]*target.
 
 		if (old.Health != scrape.HealthGood && v.Health == scrape.HealthGood) ||
 			(v.Health == scrape.HealthGood && v.Series > old.Series) {
-			sd := old.Shards
-			*old = *v
-			old.Shards = sd
+			// 'old' may be owned by somebody else (the explorer hands out its own record),
+			// merge into a copy instead of overwriting it
+			merged := *v
+			merged.Shards = old.Shards
+			old = &merged
+			a[k] = old
 		}
 		old.Shards = append(old.Shards, v.Shards...)
 	}
